@@ -18,7 +18,9 @@ Decided clauses, per listener program, on SSA-form IR:
       count: -1 .. receive length, refined edge by edge);
   K8  an offset fixed by the control flow alone (constants, additions, phis)
       stays inside the object it indexes - an offset not reset on every path
-      round the receive loop accumulates from datagram to datagram.
+      round the receive loop accumulates from datagram to datagram;
+  K9  a heap object remembered in a writable global pointer and handed to free()
+      must have that global updated by the function that frees it.
 Not decided: everything else in the statement (absence of every memory error,
 termination in general, liveness after a bad datagram)."""
 from .. import build, irparse, taint
@@ -74,7 +76,7 @@ def run(tier, res):
     if total_recv < floors.get('C18_min_recv_calls', 6):
         raise Broken('only %d receive calls found over all listeners' % total_recv)
     res.explanation = __doc__
-    res.rule = 'K1-K8 as in the module docstring, over %d listener programs' % len(LISTENERS)
+    res.rule = 'K1-K9 as in the module docstring, over %d listener programs' % len(LISTENERS)
     build.cleanup()
     return res
 
